@@ -48,13 +48,13 @@ pub fn c03(tier: Tier, seed: u64) -> i32 {
 
 pub fn c06(tier: Tier, seed: u64) -> i32 {
     let mut rep = Report::new("C06", tier, seed);
-    rep.rule = "every successful swap of the history workload on plain-token pools (static and adaptive fee): the per-step records from the swap-loop hook are re-priced: fee == ceil(in*rate/(1e6-rate)) or the unspendable remainder on a non-reaching exact-in step; sum(in+fee) == what left the trader == what entered the vault, sum(out) likewise, no other account of the trader changes; protocol fee owed grows by sum floor(fee*p/1e4), fee growth of the input token by sum floor((fee-cut)*2^64/L_step) (mod 2^128), the other token's owed/growth unchanged; the Traded event equals all of these; collect_protocol_fees pays exactly the owed amounts and zeroes them. distinct = (instruction, mode, direction, #steps bucket, protocol fee rate, fee rate, adaptive)".into();
+    rep.rule = "every successful swap of the history workload on plain-token pools (static and adaptive fee): the per-step records from the swap-loop hook are re-priced: fee == ceil(in*rate/(1e6-rate)) or the unspendable remainder on a non-reaching exact-in step; sum(in+fee) == what left the trader == what entered the vault, sum(out) likewise, no other account of the trader changes; protocol fee owed grows by sum floor(fee*p/1e4), fee growth of the input token by sum floor((fee-cut)*2^64/L_step) (mod 2^128), the other token's owed/growth unchanged; the Traded event equals all of these; both legs of every successful two-hop (v1 and v2, all four direction combinations) get the same bookkeeping, event and vault/trader conservation checks per pool; collect_protocol_fees pays exactly the owed amounts and zeroes them. distinct = (instruction, mode, direction, #steps bucket, protocol fee rate, fee rate, adaptive)".into();
     rep.assumptions = vec![SVM_ASSUMPTION.into(), "per-step amounts are read from the verif hook inside the swap loop (hook records loop variables; it computes nothing)".into()];
     let per_shard = tier.pick(16, 1600);
     let acc = run_histories(
         seed,
         per_shard,
-        move |_r| HistCfg { ops: 120, allow_adaptive: true, w_swap: 60, w_liq: 22, w_fees: 10, w_lifecycle: 2, w_clock: 3, w_setters: 3, ..Default::default() },
+        move |_r| HistCfg { ops: 120, pools: 3, allow_adaptive: true, w_swap: 52, w_two_hop: 10, w_liq: 22, w_fees: 10, w_lifecycle: 2, w_clock: 3, w_setters: 3, ..Default::default() },
         || vec![Box::new(C06) as Box<dyn Monitor>],
     );
     rep.acc = acc;
@@ -62,6 +62,7 @@ pub fn c06(tier: Tier, seed: u64) -> i32 {
     rep.floor("multi_step_swaps", 500);
     rep.floor("swaps_over_zero_liquidity_gap", 100);
     rep.floor("protocol_fee_collections_nonzero", 100);
+    rep.floor("two_hop_legs_checked", 300);
     rep.finish()
 }
 
